@@ -1,11 +1,12 @@
 (* The command interpreter run by the extracted binary and by vm_compute. *)
 From Coq Require Import List NArith ZArith Bool String.
-From PMS Require Import Base.PyStr Base.PyInt Base.Exn Model.Codec Model.ShellBase Model.ShellValidate.
+From PMS Require Import Base.PyStr Base.PyInt Base.Exn Model.Codec Model.ShellBase Model.ShellValidate
+  Model.Gateway Model.ShellGw.
 Import ListNotations.
 Open Scope N_scope.
 
-Record shell_state := mkShell { sh_unit : unit }.
-Definition shell_init : shell_state := mkShell tt.
+Record shell_state := mkShell { sh_gs : gsession }.
+Definition shell_init : shell_state := mkShell gs_init.
 
 Definition first_some {A} (l : list (option A)) (d : A) : A :=
   fold_right (fun o acc => match o with Some x => x | None => acc end) d l.
@@ -14,7 +15,10 @@ Definition shell_step (st : shell_state) (line : pstr) : shell_state * pstr :=
   match tokens line with
   | cmd :: args =>
       if pstr_eqb cmd (s2p "reset") then (shell_init, s2p "ok")
-      else (st, first_some [codec_cmd cmd args; validate_cmd cmd args] bad)
+      else match gw_cmd (sh_gs st) cmd args with
+           | Some (gs', out) => (mkShell gs', out)
+           | None => (st, first_some [codec_cmd cmd args; validate_cmd cmd args] bad)
+           end
   | [] => (st, bad)
   end.
 
